@@ -292,7 +292,6 @@ class API:
                     """Update reservation.
                     """
                     allocation, cell = rsrc_id.rsplit('/', 1)
-                    _check_capacity(cell, allocation, rsrc)
                     admin_cell_alloc = _admin_cell_alloc()
 
                     cell_alloc = admin_cell_alloc.get(
@@ -303,6 +302,9 @@ class API:
                     cell_alloc.update(rsrc)
                     _LOGGER.debug('New reservation: %r', cell_alloc)
 
+                    # Check the reservation as it will be stored: what the
+                    # request leaves out (traits) is kept from the old one.
+                    _check_capacity(cell, allocation, cell_alloc)
                     admin_cell_alloc.update([cell, allocation], cell_alloc)
                     return cell_alloc
 
